@@ -12,7 +12,7 @@ RULE = ('(any step may run in a helper thread that is started and joined at once
         'depth, max_seq_len, sort_dict_keys}) / get_default_config() / print(value, entry point, explicitly passed subset '
         'of {indent, width, ribbon_width, depth, max_seq_len, sort_dict_keys}, end string) with entry point in {pformat, '
         'pprint to a StringIO, pprint to a redirected sys.stdout, cpprint with colour off, cpprint with colour on (SGR '
-        'stripped), a PrettyPrinter object constructed earlier in the history, pretty_repr of a registered type, PrettyPrinter(**explicit).pformat, PrettyPrinter(**explicit).pprint, one PrettyPrinter(stream, settings by keyword or in the positional order of pprint.PrettyPrinter) used for both methods, '
+        'stripped), a PrettyPrinter object constructed earlier in the history, pretty_repr of a registered type, PrettyPrinter(**explicit).pformat, PrettyPrinter(**explicit).pprint, one PrettyPrinter(stream, settings by keyword or in the positional order of pprint.PrettyPrinter) used for both methods, pprint / cpprint / PrettyPrinter writing to a sink that is falsy while empty, pretty_repr nested in pretty_repr through an object printed with repr(), '
         'pformat / pprint with indent, width, depth passed positionally, pretty_repr of an instance of a subclass that only inherits the printer, pretty_repr as the very first use of a fresh class (or of a subclass of it) whose '
         'printer is registered by name}. '
         'Exhaustive: every single setting explicit-vs-default x every entry point after each single-setting '
@@ -35,7 +35,8 @@ DOMAIN = {
 }
 DEFAULTABLE = ['width', 'ribbon_width', 'depth', 'max_seq_len', 'sort_dict_keys']
 ENTRIES = ['pformat', 'pprint_stream', 'pprint_stdout', 'cpprint_off', 'cpprint_on', 'pretty_repr', 'PP.pformat', 'PP.pprint',
-           'pformat_positional', 'pprint_positional', 'pretty_repr_byname', 'pretty_repr_sub', 'pretty_repr_byname_sub', 'PP.one_object', 'PP.positional']
+           'pformat_positional', 'pprint_positional', 'pretty_repr_byname', 'pretty_repr_sub', 'pretty_repr_byname_sub', 'PP.one_object', 'PP.positional',
+           'pretty_repr_nested', 'pprint_falsy_stream', 'cpprint_falsy_stream', 'PP.falsy_stream']
 VALUES = [
     ['dict', [[['str', 'b'], ['list', [['int', 1], ['int', 2], ['int', 3]]]], [['str', 'a'], ['tuple', [['str', 'x y'], ['none']]]], [['str', 'c'], ['int', 0]]]],
     ['list', [['list', [['list', [['int', 1], ['str', 'deep']]], ['int', 2]]], ['dict', [[['int', 2], ['int', 1]], [['int', 1], ['int', 2]]]], ['str', 'lorem ipsum dolor sit amet']]],
@@ -70,6 +71,16 @@ def _types():
         CfgSub.__module__ = 'ppv_cfg'
         CfgSub.__qualname__ = 'CfgSub'
         _setup['sub'] = CfgSub
+
+        class Holder:
+            """no printer: its repr asks its content for repr() (so a registered object inside re-enters pretty_repr)"""
+
+            def __init__(self, v):
+                self.v = v
+
+            def __repr__(self):
+                return 'Holder(%r)' % (self.v,)
+        _setup['holder'] = Holder
     return _setup['cls']
 
 
@@ -202,6 +213,34 @@ def run_entry(entry, value, explicit, end, compact=None):
         pp.PrettyPrinter(stream=s, **explicit).pprint(value)
         out = s.getvalue()
         return out[:-1] + end if out.endswith('\n') else out + '<missing default newline>'
+    if entry.endswith('falsy_stream'):
+        # a sink that is falsy while empty (a list-backed capture buffer with __len__)
+        class Sink:
+            def __init__(self):
+                self.chunks = []
+
+            def write(self, text):
+                self.chunks.append(text)
+
+            def __len__(self):
+                return len(self.chunks)
+        sink = Sink()
+        fake_stdout = io.StringIO()
+        with contextlib.redirect_stdout(fake_stdout):
+            if entry == 'pprint_falsy_stream':
+                pp.pprint(value, stream=sink, end=end, **explicit)
+            elif entry == 'cpprint_falsy_stream':
+                old = colorful.colorful.colormode
+                try:
+                    colorful.disable()
+                    pp.cpprint(value, stream=sink, end=end, **explicit)
+                finally:
+                    colorful.colorful.colormode = old
+            else:
+                pp.PrettyPrinter(stream=sink, end=end, **explicit).pprint(value)
+        if fake_stdout.getvalue():
+            return '<written to sys.stdout instead of the given stream: %r>' % fake_stdout.getvalue()[:100]
+        return ''.join(sink.chunks)
     if entry in ('PP.one_object', 'PP.positional'):
         # ONE PrettyPrinter object, constructed with the stream and the settings (keywords, or the positional order of
         # pprint.PrettyPrinter: indent, width, depth, stream), serves both methods
@@ -288,6 +327,10 @@ def oracle(case):
             if entry == 'pretty_repr_sub':
                 value = _setup['sub'](value)
                 explicit = {}
+            if entry == 'pretty_repr_nested':
+                # registered > unregistered (printed through repr()) > registered: pretty_repr runs inside pretty_repr
+                value = CfgBox(_setup['holder'](CfgBox(value)))
+                explicit = {}
             byname_first = None
             if entry in ('pretty_repr_byname', 'pretty_repr_byname_sub'):
                 # a fresh class whose printer is registered by name only; repr() is its very first use
@@ -307,7 +350,7 @@ def oracle(case):
                 if entry in ('pretty_repr_byname', 'pretty_repr_byname_sub'):
                     got = byname_first
                     ref_cmp = ref
-                elif entry in ('pretty_repr', 'pretty_repr_sub'):
+                elif entry in ('pretty_repr', 'pretty_repr_sub', 'pretty_repr_nested'):
                     import warnings as _w
                     with _w.catch_warnings(record=True) as _ws:
                         _w.simplefilter('always')
